@@ -15,3 +15,28 @@ package protocol
 //@   ensures [C07 form6] is6(content) ==> valid && frameKey == int(at(content, 3)) && total == int(at(content, 4)) && index == int(at(content, 5)) && newContent == drop(content, 6)
 //@   ensures [C07 form7] !is6(content) && is7(content) ==> valid && frameKey == int(at(content, 3)) * 256 + int(at(content, 4)) && total == int(at(content, 5)) && index == int(at(content, 6)) && newContent == drop(content, 7)
 //@   ensures [C07 other] !is6(content) && !is7(content) ==> !valid && newContent == content
+
+// ---------------------------------------------------------------- generic splitter (C06, C07)
+// The two behaviours fix the per-part capacity (134 octets for the 8-bit/UCS-2/GB18030 codecs, 153 for unpacked
+// GSM 7-bit: the values SplitBy() returns), which keeps the arithmetic linear.
+
+//@ pure func udh(key int, total int, seq int) Bytes = cat(u8(5), u8(0), u8(3), u8(key), u8(total), u8(seq))
+
+//@ func splitWithUDHI
+//@   props C06,C07
+//@   requires len(data) > perMsgLength
+//@   behavior per134
+//@   requires perMsgLength == 134 && (len(data) + 133) / 134 <= 255
+//@   ensures [C07 count] len(result) == (len(data) + 133) / 134
+//@   ensures [C07 counters] len(result) <= 255
+//@   ensures [C06,C07 parts] forall k int :: 0 <= k && k < len(result) ==> result[k] == cat(udh(int(frameKey), len(result), k + 1), ext(content(data), 134 * k, min(134 * (k + 1), len(data))))
+//@   behavior per153
+//@   requires perMsgLength == 153 && (len(data) + 152) / 153 <= 255
+//@   ensures [C07 count] len(result) == (len(data) + 152) / 153
+//@   ensures [C07 counters] len(result) <= 255
+//@   ensures [C06,C07 parts] forall k int :: 0 <= k && k < len(result) ==> result[k] == cat(udh(int(frameKey), len(result), k + 1), ext(content(data), 153 * k, min(153 * (k + 1), len(data))))
+//@   loop 1
+//@     invariant 0 <= idx && idx <= msgCount && len(contentBytes) == idx
+//@     invariant @per134 forall k int :: 0 <= k && k < idx ==> contentBytes[k] == cat(udh(int(frameKey), msgCount % 256, (k + 1) % 256), ext(content(data), 134 * k, min(134 * (k + 1), total)))
+//@     invariant @per153 forall k int :: 0 <= k && k < idx ==> contentBytes[k] == cat(udh(int(frameKey), msgCount % 256, (k + 1) % 256), ext(content(data), 153 * k, min(153 * (k + 1), total)))
+//@     decreases msgCount - idx
